@@ -371,6 +371,24 @@ impl ArrayImpl {
                     ));
                 }
             },
+            A::Interval(a) => {
+                use sqlparser::ast::DateTimeField as F;
+                let part: fn(&Interval) -> i32 = match &field.0 {
+                    F::Year => |i| i.years(),
+                    F::Month => |i| i.months(),
+                    F::Day => |i| i.days(),
+                    F::Hour => |i| i.hours(),
+                    F::Minute => |i| i.minutes(),
+                    F::Second => |i| i.seconds(),
+                    f => {
+                        return Err(ConvertError::NoUnaryOp(
+                            format!("extract {f} from"),
+                            self.type_string(),
+                        ));
+                    }
+                };
+                A::new_int32(unary_op(a.as_ref(), part))
+            }
             _ => {
                 return Err(ConvertError::NoUnaryOp(
                     "extract".into(),
